@@ -153,6 +153,7 @@ class Check:
         self.extra_prop_files = []
         self.boost = float(os.environ.get("PGV_BOOST", "1"))
         self.stale_stamps = []
+        self.package_changed = []
         self.replay_obj = json.loads(Path(replay).read_text()) if replay else None
 
     # ---------------------------------------------------------------- sizes
@@ -360,7 +361,7 @@ class Check:
         self.cov["known_findings_reproduced"] = [f["id"] for f in self.known_hits]
         self.cov["generated"] = self.gen_info
         self.cov["notes"] = self.notes
-        self.cov["source_stamps"] = {"stale": self.stale_stamps, "boost": self.boost,
+        self.cov["source_stamps"] = {"stale": self.stale_stamps, "package_files_changed": self.package_changed, "boost": self.boost,
                                      "what": "digests of the normalised AST of every function of the anchored files (harness/stamps.lock.json) compared with the current tree"}
         if extra:
             self.cov.update(extra)
@@ -451,7 +452,15 @@ def run_check(pid, tier, seed, replay, body, modules=None, gen=None, level="proo
         ck.proof_ok = ok and not ck.broken
         # source stamps: has the code that the hand-written models mirror moved since they were last validated?
         from . import stamps
-        lock = stamps.load_lock(VERIF).get("stamps", {}).get(pid)
+        lock_all = stamps.load_lock(VERIF)
+        lock = lock_all.get("stamps", {}).get(pid)
+        pkg = lock_all.get("package")
+        if pkg is not None:
+            now = stamps.package_digests(REPO)
+            ck.package_changed = sorted(k for k in set(pkg) | set(now) if pkg.get(k) != now.get(k))
+            if ck.package_changed:
+                ck.boost = max(ck.boost, 2.0)
+                ck.notes.append("files of the package that differ from the tree the models were validated against (quick-tier search enlarged x2): " + "; ".join(ck.package_changed[:30]))
         if lock is not None:
             ck.stale_stamps = stamps.compare(lock, stamps.current(REPO, anchor_files(pid)))
             if ck.stale_stamps:
